@@ -59,10 +59,21 @@ def regenerate():
 
 # ------------------------------------------------------------------ Coq
 def coq_makefile():
-    mk = os.path.join(COQ, "Makefile")
+    """(Re)generate coq/Makefile from the files of _CoqProject that exist now: a generated file the translator could not
+    produce must not break the build of unrelated targets."""
     proj = os.path.join(COQ, "_CoqProject")
-    if not os.path.exists(mk) or os.path.getmtime(mk) < os.path.getmtime(proj):
-        sh("coq_makefile -f _CoqProject -o Makefile", cwd=COQ, timeout=120)
+    eff = os.path.join(COQ, "_CoqProject.effective")
+    mk = os.path.join(COQ, "Makefile")
+    lines = []
+    for ln in open(proj).read().splitlines():
+        t = ln.strip()
+        if t.endswith(".v") and not t.startswith("-") and not os.path.exists(os.path.join(COQ, t)):
+            continue
+        lines.append(ln)
+    text = "\n".join(lines) + "\n"
+    if not os.path.exists(eff) or open(eff).read() != text or not os.path.exists(mk):
+        open(eff, "w").write(text)
+        sh("coq_makefile -f _CoqProject.effective -o Makefile", cwd=COQ, timeout=120)
 
 def coq_build(targets, timeout=1500):
     """make the given .vo targets (full build, never -vos).  Returns (ok, output)."""
